@@ -60,6 +60,7 @@ type UOuter struct {
 	S      []string
 	SI     []UInner
 	NilS   []string
+	SC     []string // len 2, cap 4: the elements beyond len must never be reachable
 	A      [2]int
 	Str    string
 	I      interface{}
@@ -85,6 +86,8 @@ func newUOuter(withEmbP bool) *UOuter {
 		S:  []string{"s0", "s1"}, SI: []UInner{{Name: "si0", N: 3}}, A: [2]int{4, 5}, Str: "str",
 		I: UInner{Name: "iface"}, U8: 200, secret: "x",
 	}
+	backing := []string{"c0", "c1", "STALE2", "STALE3"}
+	o.SC = backing[:2]
 	if withEmbP {
 		o.UEmbP = &UEmbP{PProm: "pprom"}
 	}
@@ -101,7 +104,7 @@ type c06Step struct {
 	arg  string
 }
 
-var c06Fields = []string{"Promoted", "PProm", "Shadow", "In", "PIn", "NilIn", "PP", "M", "MI", "MA", "MS", "NilM", "S", "SI", "NilS", "A", "Str", "I", "NilI", "U8", "secret", "Nope", "Name", "N", "hidden", "k", "absent", "nilval", "v", "in", "e", "UEmbV", "ID", "Title", "Owner", "Mid", "Deepest", "Deepest2", "UL2", "UL3", "embHidden"}
+var c06Fields = []string{"Promoted", "PProm", "Shadow", "In", "PIn", "NilIn", "PP", "M", "MI", "MA", "MS", "NilM", "S", "SI", "NilS", "SC", "A", "Str", "I", "NilI", "U8", "secret", "Nope", "Name", "N", "hidden", "k", "absent", "nilval", "v", "in", "e", "UEmbV", "ID", "Title", "Owner", "Mid", "Deepest", "Deepest2", "UL2", "UL3", "embHidden"}
 
 func c06Steps() []c06Step {
 	var st []c06Step
@@ -493,6 +496,33 @@ func C06(r *core.Run) map[string]interface{} {
 					r.Distinct("v:" + s)
 				}
 			} else {
+				// composite values: their length and, for slices/arrays of scalars, their printed form
+				v := want.val
+				for v.Kind() == reflect.Ptr && !v.IsNil() {
+					v = v.Elem()
+				}
+				switch v.Kind() {
+				case reflect.Slice, reflect.Array, reflect.Map, reflect.String:
+					if v.Kind() != reflect.Map || !v.IsNil() {
+						roots2, _ := c06Roots1(p)
+						lout, lerr, lpan := c06Exec("[{{ len("+p.src(steps)+") }}]", roots2)
+						r.Eval()
+						if lpan != nil || lerr != nil || lout != fmt.Sprintf("[%d]", v.Len()) {
+							cs.Use, cs.Source, cs.Want, cs.Got = "len", "[{{ len("+p.src(steps)+") }}]", fmt.Sprintf("[%d]", v.Len()), lout
+							r.Violate(core.Violation{What: fmt.Sprintf("len(%s) (root %s) renders %q (error %v panic %v), the stored value has length %d", p.src(steps), cs.Root, lout, lerr, lpan, v.Len()), Case: cs})
+							return
+						}
+					}
+				}
+				if (v.Kind() == reflect.Slice || v.Kind() == reflect.Array) && v.Type().Elem().Kind() != reflect.Uint8 {
+					switch v.Type().Elem().Kind() {
+					case reflect.String, reflect.Int:
+						if want2 := "[" + rj.HTMLEscape(fmt.Sprint(v.Interface())) + "]"; out != want2 && v.CanInterface() {
+							bad(fmt.Sprintf("stored value prints as %q", fmt.Sprint(v.Interface())))
+							return
+						}
+					}
+				}
 				r.Distinct("composite:" + want.val.Type().String())
 			}
 		}
@@ -514,7 +544,7 @@ func C17(r *core.Run) map[string]interface{} {
 	if r.Thorough() {
 		maxLen = 3
 	}
-	r.Rule = "isset(p) for every access path of <= N steps of the C06 universe that is an identifier/field/index chain; isset(p, q) for every pair of paths of <= 1 step (thorough: one side <= 2 steps); p | isset, p | isset(_) and p | isset(x, _) for every p whose evaluation is defined; v, ok := m[k] and v, ok = m[k] for every map of the universe x 8 keys; oracle: never fails, true iff every argument resolves to a non-nil value; distinct = distinct (form, verdict) per path class"
+	r.Rule = "isset(p) for every access path of <= N steps of the C06 universe that is an identifier/field/index chain; isset(p, q) for every pair of paths of <= 1 step (thorough: one side <= 2 steps); p | isset, p | isset(_), p | isset(x, _) and p | isset(q) for every p whose evaluation is defined; v, ok := m[k] and v, ok = m[k] for every map of the universe x 8 keys; oracle: never fails, true iff every argument resolves to a non-nil value; distinct = distinct (form, verdict) per path class"
 	total := c06Count(len(steps), maxLen)
 	chain := func(p c06Path) bool {
 		for _, k := range p.steps {
@@ -589,6 +619,13 @@ func C17(r *core.Run) map[string]interface{} {
 		}
 		want := c06NotNil(wp) && c06NotNil(wq)
 		run("pair", "[{{ isset("+p.src(steps)+", "+q.src(steps)+") }}]", roots, fmt.Sprintf("[%v]", want), false, "")
+		if wp.st == rj.MOk && len(q.steps) <= 1 {
+			roots2 := map[int]interface{}{p.root: c06Roots[p.root].mk()}
+			if _, ok := roots2[q.root]; !ok {
+				roots2[q.root] = c06Roots[q.root].mk()
+			}
+			run("pair-piped", "[{{ "+p.src(steps)+" | isset("+q.src(steps)+") }}]", roots2, fmt.Sprintf("[%v]", want), false, "")
+		}
 	})
 	// v, ok := m[k]
 	maps := []string{"rp.M", "rp.MI", "rp.MA", "rp.MS", "rp.NilM", "rm"}
